@@ -89,14 +89,13 @@ pub fn bye<S: Src, const K: usize>(s: &mut S) {
 
 // ------------------------------------------------------------------ SR / RR
 
+/// SR scalar setters in any order, repeats keep the last value.
 pub fn sr<S: Src, const K: usize>(s: &mut S) {
     let mut b = SenderReport::builder(7);
     let (mut padding, mut ntp, mut rtp, mut pc, mut oc) = (0u8, 0u64, 0u32, 0u32, 0u32);
-    let mut blocks = [(0u32, 0u8); K];
-    let mut nb = 0;
     let mut step = 0;
     while step < K {
-        let choice = s.upto(5);
+        let choice = s.upto(4);
         let x = s.u8();
         let y = s.u32();
         let z = s.u64();
@@ -118,29 +117,47 @@ pub fn sr<S: Src, const K: usize>(s: &mut S) {
                 pc = y;
                 b.packet_count(y)
             }
-            4 => {
+            _ => {
                 oc = y;
                 b.octet_count(y)
-            }
-            _ => {
-                blocks[nb] = (y, x);
-                nb += 1;
-                b.add_report_block(ReportBlock::builder(y).fraction_lost(x))
             }
         };
         step += 1;
     }
-    // canonical: scalar setters in reverse declaration order, then the blocks in insertion order
-    let mut c = SenderReport::builder(7).octet_count(oc).packet_count(pc).rtp_timestamp(rtp).ntp_timestamp(ntp).padding(padding);
-    let mut q = 0;
-    while q < K {
-        if q < nb {
-            c = c.add_report_block(ReportBlock::builder(blocks[q].0).fraction_lost(blocks[q].1));
-        }
-        q += 1;
+    // canonical: the same setters in reverse declaration order
+    let c = SenderReport::builder(7).octet_count(oc).packet_count(pc).rtp_timestamp(rtp).ntp_timestamp(ntp).padding(padding);
+    same_output::<S, _, _, 48>(s, &b, &c);
+    vcover!(padding > 0 && ntp != 0, "padding and a timestamp set");
+    forget((b, c));
+}
+
+/// SR/RR report blocks: insertion order is kept whatever is set in between.
+pub fn sr_blocks<S: Src>(s: &mut S) {
+    let (s1, s2) = (s.u32(), s.u32());
+    let (f1, f2) = (s.u8(), s.u8());
+    let pad = s.u8();
+    let rtp = s.u32();
+    s.assume(pad <= 8);
+    let before = s.bool();
+    let mut b = SenderReport::builder(7);
+    if before {
+        b = b.padding(pad).rtp_timestamp(rtp);
     }
-    same_output::<S, _, _, 120>(s, &b, &c);
-    vcover!(nb >= 1 && padding > 0, "block and padding");
+    b = b.add_report_block(ReportBlock::builder(s1).fraction_lost(f1));
+    if !before {
+        b = b.rtp_timestamp(rtp);
+    }
+    b = b.add_report_block(ReportBlock::builder(s2).fraction_lost(f2));
+    if !before {
+        b = b.padding(pad);
+    }
+    let c = SenderReport::builder(7)
+        .add_report_block(ReportBlock::builder(s1).fraction_lost(f1))
+        .add_report_block(ReportBlock::builder(s2).fraction_lost(f2))
+        .rtp_timestamp(rtp)
+        .padding(pad);
+    same_output::<S, _, _, 92>(s, &b, &c);
+    vcover!(s1 != s2 && pad > 0, "two distinct blocks, padded");
     forget((b, c));
 }
 
@@ -161,6 +178,7 @@ pub fn rr<S: Src, const K: usize>(s: &mut S) {
                 b.padding(x)
             }
             _ => {
+                s.assume(nb < 2);
                 blocks[nb] = (y, x);
                 nb += 1;
                 b.add_report_block(ReportBlock::builder(y).fraction_lost(x))
@@ -177,7 +195,7 @@ pub fn rr<S: Src, const K: usize>(s: &mut S) {
         q += 1;
     }
     c = c.padding(padding);
-    same_output::<S, _, _, 120>(s, &b, &c);
+    same_output::<S, _, _, 72>(s, &b, &c);
     vcover!(nb >= 2 && padding > 0, "blocks in insertion order with padding set in between");
     forget((b, c));
 }
@@ -371,6 +389,29 @@ pub fn sdes<S: Src, const K: usize>(s: &mut S) {
     forget((b, c));
 }
 
+/// Owned and borrowed SDES items produce the same bytes (PRIV prefix included).
+pub fn sdes_owned<S: Src>(s: &mut S) {
+    let v = Text::<4>::draw(s, 4);
+    let pre = Blob::<3>::draw(s, 3);
+    let t = s.u8();
+    s.assume(t != 0);
+    let ssrc = s.u32();
+    let pad = s.u8();
+    s.assume(pad <= 8);
+    let which = s.upto(2);
+    let mk = || SdesItem::builder(t, v.as_str()).prefix(pre.as_bytes());
+    let chunk = match which {
+        0 => SdesChunk::builder(ssrc).add_item_owned(mk()),
+        1 => SdesChunk::builder(ssrc).add_item(mk().into_owned()),
+        _ => SdesChunk::builder(ssrc).add_item(mk().into_owned().into_owned()),
+    };
+    let b = Sdes::builder().add_chunk(chunk).padding(pad);
+    let c = Sdes::builder().padding(pad).add_chunk(SdesChunk::builder(ssrc).add_item(mk()));
+    same_output::<S, _, _, 40>(s, &b, &c);
+    vcover!(t == 8 && pre.len > 0, "owned PRIV item with prefix");
+    forget((b, c));
+}
+
 // ------------------------------------------------------------------ feedback and FCI
 
 pub fn rpsi<S: Src, const K: usize>(s: &mut S) {
@@ -510,8 +551,9 @@ pub fn nack_readd<S: Src>(s: &mut S) {
 }
 
 /// Re-adding a FIR SSRC keeps the last sequence.
-pub fn fir_readd<S: Src>(s: &mut S) {
-    let ssrc = s.u32();
+pub fn fir_readd<S: Src, const SYMBOLIC_SSRC: bool>(s: &mut S) {
+    let drawn = s.u32();
+    let ssrc = if SYMBOLIC_SSRC { drawn } else { 0x1234_5678 };
     let (s1, s2) = (s.u8(), s.u8());
     let x = Fir::builder().add_ssrc(ssrc, s1).add_ssrc(ssrc, s2);
     let y = Fir::builder().add_ssrc(ssrc, s2);
@@ -528,17 +570,19 @@ pub fn fir_readd<S: Src>(s: &mut S) {
 common::register! {
     q_bye = bye::<_, 3> => 2,
     q_sr = sr::<_, 3> => 2,
-    q_rr = rr::<_, 3> => 2,
+    q_sr_blocks = sr_blocks => 3,
+    q_rr = rr::<_, 2> => 2,
     q_report_block = report_block::<_, 3> => 2,
     q_app = app::<_, 3> => 2,
     q_unknown = unknown::<_, 3> => 2,
-    q_sdes = sdes::<_, 2> => 2,
+    t_sdes_2 = sdes::<_, 2> => 2,
+    q_sdes_owned = sdes_owned => 2,
     q_rpsi = rpsi::<_, 3> => 2,
     q_feedback = feedback::<_, 3> => 2,
     q_transport_feedback = transport_feedback::<_, 2> => 2,
     t_bye = bye::<_, 4> => 2,
     t_sr = sr::<_, 4> => 2,
-    t_rr = rr::<_, 4> => 2,
+    t_rr = rr::<_, 3> => 2,
     t_report_block = report_block::<_, 5> => 2,
     t_app = app::<_, 4> => 2,
     t_sdes = sdes::<_, 3> => 2,
@@ -548,7 +592,8 @@ common::register! {
 }
 
 common::register_hashmap! {
-    q_fir_readd = fir_readd => 4,
+    q_fir_readd = fir_readd::<_, false> => 4,
+    t_fir_readd_any_ssrc = fir_readd::<_, true> => 4,
 }
 
 #[cfg(not(kani))]
